@@ -462,3 +462,41 @@ Proof. vm_compute. reflexivity. Qed.
 Lemma src_base_columns : src_base_row = base_cols /\\ forallb (fun b => strs_eqb b base_cols) src_base_cols = true.
 Proof. split; reflexivity. Qed.
 """
+
+
+# ---------------------------------------------------------------------------
+# datasets/synthetic.logisic_dynamics: which matrix enters the update  ->  Logistic model
+# ---------------------------------------------------------------------------
+def logistic_facts():
+    tree = parse("causationentropy/datasets/synthetic.py")
+    f = func(tree, "logisic_dynamics")
+    lm = func(tree, "logistic_map")
+    if [src(b).replace(" ", "") for b in lm.body] != ["returnr*X*(1-X)"]:
+        raise Unavailable("logistic_map body")
+    s = _stmts(f)
+    need = ["row_sums=np.sum(A,axis=1)", "non_zero_mask=row_sums>0",
+            "A[non_zero_mask]=A[non_zero_mask]/row_sums[non_zero_mask,np.newaxis]", "A=A.T", "XY[0,:]=rng.random(n)", "returnXY,A"]
+    for k in need:
+        if k not in s:
+            raise Unavailable(f"statement `{k}`")
+    order = [s.index(k) for k in need[:4]]
+    if order != sorted(order):
+        raise Unavailable("normalisation / transpose order")
+    L = one((n for n in ast.walk(f) if isinstance(n, ast.Assign) and is_name(n.targets[0], "L")
+             and "np.eye" in src(n.value)), "L assignment")
+    upd = one((n for n in ast.walk(f) if isinstance(n, ast.Assign) and src(n.targets[0]).replace(" ", "") == "XY[i,:]"), "update")
+    return {"laplacian": src(L.value).replace(" ", ""), "update": src(upd.value).replace(" ", "")}
+
+
+def coq_logistic_facts(f):
+    return f"""From Coq Require Import String List.
+Import ListNotations.
+Open Scope string_scope.
+Definition src_laplacian : string := "{f['laplacian']}".
+Definition src_update : string := "{f['update']}".
+(* after `A = A.T` the row-stochastic matrix is A.T, and the update is f - sigma * (L f) *)
+Lemma src_update_is_modelled :
+  src_laplacian = "np.eye(n)-A.T" /\\
+  src_update = "logistic_map(XY[i-1,:],r)-sigma*np.dot(L,logistic_map(XY[i-1,:],r)).T".
+Proof. split; reflexivity. Qed.
+"""
